@@ -221,6 +221,8 @@ class QCC(Ansatz):
 
         # Obtain quantum circuit through trivial trotterization of the qubit operator
         # Track the order in which pauli words have been visited for fast parameter updates
+        # (positions refer to the circuit being built: discard the ones of a previous build)
+        self.pauli_to_angles_mapping = dict()
         pauli_words_gates = []
         pauli_words = sorted(qubit_op.terms.items(), key=lambda x: len(x[0]))
         for i, (pauli_word, coef) in enumerate(pauli_words):
